@@ -17,7 +17,8 @@ EXTENDS Integers, Sequences, FiniteSets, TLC, Json
 CONSTANTS Fams,        \* subset of {"short", "long", "num", "bignum", "errpos"}
           ShortItems,  \* max items in a short-string body
           LongItems,   \* max items in a long-string body
-          NumLen,      \* max length of a numeral-alphabet string
+          NumLen,      \* all strings over the numeral alphabet up to this length, plus those of length NumLen + 1
+                       \* that start with one of NumPrefixes
           PreMax       \* errpos: max statement groups before the offending line
 
 VARIABLES c
@@ -418,6 +419,8 @@ LItems == << <<"a">>, <<"]">>, <<"=">>, <<"[">>, <<"]", "]">>, <<"]", "=", "]">>
              <<"\\">>, <<"\\", "n">>, <<" ">>, <<"\"">>, <<"HI">> >>
 NumAlphabet == B(<<"0", "1", "9", "a", "f", "x", ".", "e", "p", "+", "-">>)
 
+NumPrefixes == {B(<<"0", "x">>), B(<<"0", "X">>), B(<<"1", "e">>), B(<<"1", ".">>), B(<<".", "1">>)}
+
 RECURSIVE Cat(_, _)
 Cat(items, idxs) == IF idxs = <<>> THEN <<>> ELSE B(items[idxs[1]]) \o Cat(items, Tail(idxs))
 SeqsUpTo(S, n) == UNION {[1..k -> S] : k \in 0..n}
@@ -430,7 +433,8 @@ Ret == B(<<"r", "e", "t", "u", "r", "n", " ">>)
 Keys ==
   (IF "short" \in Fams THEN {<<"short", q, first>> : q \in {34, 39}, first \in 0..Len(SItems)} ELSE {})
   \cup (IF "long" \in Fams THEN {<<"long", lev, cl, first>> : lev \in 0..2, cl \in {"closed", "open", "noopen"}, first \in 0..Len(LItems)} ELSE {})
-  \cup (IF "num" \in Fams THEN {<<"num", ch>> : ch \in {NumAlphabet[i] : i \in 1..Len(NumAlphabet)}} ELSE {})
+  \cup (IF "num" \in Fams THEN {<<"num", <<ch>> >> : ch \in {NumAlphabet[i] : i \in 1..Len(NumAlphabet)}}
+                               \cup {<<"num", p>> : p \in NumPrefixes} ELSE {})
   \cup (IF "bignum" \in Fams THEN {<<"bignum", b>> : b \in {"dec", "hex"}} ELSE {})
   \cup (IF "errpos" \in Fams THEN {<<"errpos", off, pat>> : off \in 0..Len(Offenders), pat \in 1..Len(EolPatterns)} ELSE {})
 
@@ -459,8 +463,9 @@ LongCases ==
 
 NumCases ==
   /\ c[1] = "num"
-  /\ \E rest \in SeqsUpTo({NumAlphabet[i] : i \in 1..Len(NumAlphabet)}, NumLen - 1) :
-       LET src == <<c[2]>> \o rest
+  /\ \E rest \in (IF Len(c[2]) = 1 THEN SeqsUpTo({NumAlphabet[i] : i \in 1..Len(NumAlphabet)}, NumLen - 1)
+                   ELSE [1..(NumLen - 1) -> {NumAlphabet[i] : i \in 1..Len(NumAlphabet)}]) :
+       LET src == c[2] \o rest
            d == ClassifyNum(src)
            up == Upper(src)
        IN /\ c' = <<"case", src>>
